@@ -101,8 +101,8 @@ def parse_output(res, out):
 
 class _Slots(object):
     """Machine-wide limit on concurrently running TLC JVMs (many checks / builders may share the box).
-    A run takes 1 slot (workers <= 2) or 4 slots; slots are lock files under .work/slots."""
-    N = int(os.environ.get("VERIF_TLC_SLOTS", "20"))
+    A run takes 1 slot (workers <= 2) or 3 slots; slots are lock files under .work/slots."""
+    N = int(os.environ.get("VERIF_TLC_SLOTS", "32"))
 
     def __init__(self, want):
         self.want = min(want, self.N)
@@ -185,7 +185,7 @@ def run(module, cfg, specdir=None, workers=None, simulate=None, depth=None, seed
     res = TLCResult()
     res.cmd = " ".join(cmd)
     nworkers = int(workers or NCPU)
-    slots = _Slots(1 if nworkers <= 2 else 4)
+    slots = _Slots(1 if nworkers <= 2 else 3)
     slots.__enter__()
     t0 = time.time()
     try:
